@@ -79,13 +79,14 @@ def source(t, addend=0):
     return HEAD + (TLS if t.get("tls") else "") + PROBE.format(body=body)
 
 
-def boundary_targets(bits):
-    """Computed values to aim at: around every boundary of the n-bit field."""
+def boundary_targets(bits, radius):
+    """Computed values to aim at: 2*radius+1 values around every boundary of the n-bit field
+    (-2^n, -2^(n-1), 2^(n-1), 2^n) and 0."""
     if bits == 64:
         return [0, 1, -1, (1 << 63) - 1, -(1 << 63), (1 << 63) - 2, -(1 << 63) + 1, 0x123456789abcdef]
     out = {0}
     for b in (-(1 << bits), -(1 << (bits - 1)), 1 << (bits - 1), 1 << bits):
-        for d in (-2, -1, 0, 1, 2):
+        for d in range(-radius, radius + 1):
             out.add(b + d)
     return sorted(out)
 
@@ -293,7 +294,7 @@ def run_e2e(chk):
                 stats["skipped_types"][t["name"]] = learnt
                 continue
             stats["learnt"][t["name"]] = {k: hex(v & M64) for k, v in learnt.items()}
-        for target in boundary_targets(t["bits"]):
+        for target in boundary_targets(t["bits"], 3 if chk.thorough else 1):
             items.append((ti, target, learnt))
     results = wildrun.pmap(e2e_member, items)
     samples = []
@@ -384,6 +385,8 @@ def main():
             "types": [t["name"] for t in E2E_TYPES if t["name"] not in e2e["skipped_types"]],
             "skipped_types": e2e["skipped_types"],
             "members": e2e["members"],
+            "values_per_type": "0 and %d values around each of -2^n, -2^(n-1), 2^(n-1), 2^n (64-bit "
+                               "types: 8 values incl. i64::MIN / i64::MAX)" % (7 if chk.thorough else 3),
             "reference_links": e2e["reference_links"],
             "wild_links": e2e["wild_links"],
             "learnt_place_or_base": e2e["learnt"],
